@@ -252,6 +252,9 @@ def _big_case(args):
         # stored in single precision (what scanpy writes): huge odd counts, whose neighbours are 1 apart, the largest
         # single-precision value below one half, and one value that makes rounding necessary
         M[0, 0], M[1, 1], M[2, 2], M[3, 3], M[4, 4] = 8388609.0, 16777215.0, float(np.float32(0.49999997)), 12.25, 8388611.0
+        if seed % 2:
+            # 4294967295.5 as single precision holds: 2^32, one beyond the largest unsigned 32-bit integer
+            M[5, 5] = float(np.float32(4294967295.5))
     for r in flat_rows:
         for c in range(nc):
             if M[r, c] != 0 and enc != 'csc' or enc == 'dense':
@@ -323,6 +326,43 @@ def _big_case(args):
     return 'done', bad
 
 
+def _same_path_cases(wd):
+    """the validated file is asked for AT the input's own path: whatever the call does, the input must stay as it is"""
+    import hashlib
+    from cell_type_mapper.validation.validate_h5ad import validate_h5ad
+    from cell_type_mapper.gene_id.gene_id_mapper import GeneIdMapper
+    out = []
+    for needs_change in (False, True):
+        d = tempfile.mkdtemp(dir=wd)
+        try:
+            names = [f'ENSMUSG{j + 1:011d}' for j in range(3)] if not needs_change else [SYM[1], SYM[3], f'ENSMUSG{9:011d}']
+            X = np.array([[1, 0, 2], [0, 3, 0]], dtype=np.float32)
+            p = os.path.join(d, 'in.h5ad')
+            with warnings.catch_warnings():
+                warnings.simplefilter('ignore')
+                anndata.AnnData(X=X, obs=pd.DataFrame(index=pd.Index(['c0', 'c1'], name='cell_id')),
+                                var=pd.DataFrame(index=pd.Index(names, name='gene'))).write_h5ad(p)
+            before = hashlib.sha256(open(p, 'rb').read()).hexdigest()
+            os.makedirs(os.path.join(d, 'scratch'))
+            err = None
+            try:
+                with warnings.catch_warnings():
+                    warnings.simplefilter('ignore')
+                    validate_h5ad(p, gene_id_mapper=GeneIdMapper(data=dict(MAPPER)), tmp_dir=os.path.join(d, 'scratch'),
+                                  layer='X', round_to_int=True, valid_h5ad_path=p)
+            except Exception as e:                        # noqa
+                err = f'{type(e).__name__}: {str(e)[:80]}'
+            if not os.path.exists(p):
+                out.append(('validate:same-path:input-gone', f'valid_h5ad_path = the input\'s own path (file needs '
+                                                             f'{"a" if needs_change else "no"} change): the input file is gone ({err})'))
+            elif hashlib.sha256(open(p, 'rb').read()).hexdigest() != before:
+                out.append(('validate:same-path:input-modified', f'valid_h5ad_path = the input\'s own path (file needs '
+                                                                 f'{"a" if needs_change else "no"} change): the input file was rewritten ({err})'))
+        finally:
+            shutil.rmtree(d, ignore_errors=True)
+    return out
+
+
 def run(ctx):
     quick = ctx.tier == 'quick'
     rng = random.Random(ctx.seed + 16)
@@ -379,6 +419,11 @@ def run(ctx):
             if ctx.report(sig, msg, {'big': [enc, where, place, chunk, sd]}):
                 nbad += 1
     ctx.part('big', cases=len(big))
+    for sig, msg in _same_path_cases(wd):
+        if ctx.report(sig, msg, {'same_path': sig}):
+            nbad += 1
+    ctx.count({'same_path': 'no_change'}, nontrivial=True)
+    ctx.count({'same_path': 'change'}, nontrivial=True)
     ctx.sample({'scenario': table[3]})
     ctx.sample({'scenario': ranges[0]})
     ctx.part('s2c', table_scenarios=len(table), range_scenarios=len(ranges), runs=len(jobs) - nskip,
